@@ -196,6 +196,24 @@ class Engine:
         self._add(cond if choice else z3.Not(cond))
         return choice
 
+    def pick(self, term, signed=False):
+        """a concrete value of `term` consistent with the path condition (from the model); the choice is recorded in
+        the decision trail so that re-execution is deterministic. Adds nothing to the path condition."""
+        i = len(self.trail)
+        if i >= self.max_decisions:
+            raise Budget()
+        if i < len(self.prefix):
+            ent = self.prefix[i]
+            if not (_real_isinstance(ent, tuple) and ent[0] == "pick"):
+                raise RuntimeError("symx: replay divergence (pick)")
+            v = ent[1]
+        else:
+            m = self.get_model()
+            x = m.eval(term, model_completion=True)
+            v = x.as_signed_long() if signed else x.as_long()
+        self.trail.append(("pick", v))
+        return v
+
     def realize(self, term, kind="index", signed=False):
         """enumerate concrete values of a BV term as sibling paths (cap per kind)"""
         t = z3.simplify(term)
@@ -1046,9 +1064,7 @@ class SymDict(dict):
             kt = key.ext(w)
             anyk = None
             while True:
-                m = E.get_model()
-                v = m.eval(kt, model_completion=True)
-                v = v.as_signed_long() if key.signed else v.as_long()
+                v = E.pick(kt, key.signed)
                 if dict.__contains__(self, v):
                     if E.branch(kt == z3.BitVecVal(v, w)):
                         return dict.__getitem__(self, v)
